@@ -110,7 +110,7 @@ impl GaloisTool {
         let mut index_raw = 0;
         for i in 0..self.coeff_count {
             let index = index_raw & coeff_count_minus_one;
-            let mut result_value = if i <= operand.len() {operand[i]} else {0};
+            let mut result_value = if i < operand.len() {operand[i]} else {0};
             if ((index_raw >> self.coeff_count_power) & 1) > 0 {
                 result_value = util::negate_u64_mod(result_value, modulus);
             }
